@@ -1,6 +1,7 @@
 package props
 
 import (
+	"encoding/json"
 	"fmt"
 	"regexp"
 	"sort"
@@ -244,7 +245,8 @@ func c13Run(w *kernel.Worker, j *c13Job, rep *kernel.Report) (*Fail, error) {
 		case "ingest":
 			id := m.apply(o)
 			owner[id] = o.Org
-			ev := fmt.Sprintf(`{"timestamp":%d,"id":"%s","org":%d,"ix":"%s"}`, T0+int64(m.nextEv), id, o.Org, o.Index)
+			// one field whose name belongs to the organisation and one that belongs to the index (column listings)
+			ev := fmt.Sprintf(`{"timestamp":%d,"id":"%s","org":%d,"ix":"%s","f_org%d":1,"f_ix_%s":1}`, T0+int64(m.nextEv), id, o.Org, o.Index, o.Org, strings.ReplaceAll(o.Index, "-", "_"))
 			if err := ingestStep(w, o.Org, real(o.Index), []string{ev}); err != nil {
 				return die(err)
 			}
@@ -306,6 +308,33 @@ func c13Run(w *kernel.Worker, j *c13Job, rep *kernel.Report) (*Fail, error) {
 	}
 	rep.Eval(int64(len(qs)))
 	fs := &Fails{}
+	// column listing of every index of the name space, per organisation: only field names of that organisation's events
+	for _, org := range []int64{0, 1} {
+		var cr struct {
+			Status int    `json:"status"`
+			Body   string `json:"body"`
+		}
+		body := fmt.Sprintf(`{"indexName":%s,"startEpoch":%d,"endEpoch":%d}`, jq(real("*")), T0-10, T0+10000)
+		if err := w.Call("call", map[string]interface{}{"handler": "listColumns", "org": org, "method": "POST", "uri": "/api/search/columns", "body": body}, &cr); err != nil {
+			return die(err)
+		}
+		rep.Eval(1)
+		var cols []string
+		if json.Unmarshal([]byte(cr.Body), &cols) != nil {
+			continue
+		}
+		for _, c := range cols {
+			if c == fmt.Sprintf("f_org%d", 1-org) {
+				fs.Add("C13/cross-tenant-leak/column-listing", fmt.Sprintf("path [%s] → state %s; org %d lists the columns of %s: %v — f_org%d is a field name that only events of the other organisation carry", pathStr(), m.canon(), org, real("*"), cols, 1-org))
+			}
+			if strings.HasPrefix(c, "f_ix_") {
+				ix := strings.ReplaceAll(strings.TrimPrefix(c, "f_ix_"), "_", "-")
+				if len(m.Events[org][ix]) == 0 {
+					fs.Add("C13/unrequested-index/column-listing", fmt.Sprintf("path [%s] → state %s; org %d lists the columns of %s: %v — %s belongs to index %s, which holds no event of this organisation", pathStr(), m.canon(), org, real("*"), cols, c, ix))
+				}
+			}
+		}
+	}
 	ctx := func(d qd) string {
 		return fmt.Sprintf("path [%s] → state %s; org %d index expression %q (%s)", pathStr(), m.canon(), d.org, d.expr, d.form)
 	}
